@@ -34,13 +34,37 @@ def close(x, y, atol, rtol=0.0):
     return bool(np.all(np.abs(x - y) <= atol + rtol * np.abs(y)))
 
 
+ANGLE_TYPES = ['int', 'int8', 'uint8', 'int16', 'uint16', 'int32', 'int64']
+
+
+def _draw_angtype(r, al, be, ga):
+    """Whole-number angles are, four times in ten, handed over as the integers a caller has (Python int, or an element of
+    an integer array of some width); the cell they define is the same."""
+    if all(float(x).is_integer() for x in (al, be, ga)) and r.random() < 0.4:
+        t = r.choice(ANGLE_TYPES)
+        if t == 'int8' and max(al, be, ga) > 127:
+            t = 'int16'
+        return t
+    return None
+
+
+def _typed_angles(ctx, t, al, be, ga):
+    if not t or not all(float(x).is_integer() for x in (al, be, ga)):
+        return al, be, ga
+    ctx.probe('integer_typed_angles')
+    if t == 'int':
+        return int(al), int(be), int(ga)
+    arr = np.array([al, be, ga], dtype=t)
+    return arr[0], arr[1], arr[2]
+
+
 class BoxEngine(Engine):
     prop = 'C01'
     name = 'session_box'
     max_ops = 40
     expected_probes = ['cache_warm_when_vects_changed', 'refused_raised', 'scribble_returned',
                        'scribble_passed', 'on_face_exact', 'nonnorm_cell', 'reexpress_norm',
-                       'reexpress_nonnorm', 'list_input', 'scalar_point', 'model_roundtrip', 'model_of_other_cell_read', 'noncontiguous_points', 'cube_rotated_cell', 'bulk_points_query', 'classmethod_same_arguments_again', 'integer_typed_lengths', 'integer_typed_cartesian_points', 'bystander_call', 'earlier_definition_repeated',
+                       'reexpress_nonnorm', 'list_input', 'scalar_point', 'model_roundtrip', 'model_of_other_cell_read', 'noncontiguous_points', 'cube_rotated_cell', 'bulk_points_query', 'classmethod_same_arguments_again', 'integer_typed_lengths', 'integer_typed_angles', 'integer_typed_cartesian_points', 'bystander_call', 'earlier_definition_repeated',
                        'scribble_returned_planes']
     rule = ('Each run drives ONE Box object (occasionally replaced by a constructor or deepcopy) through up to 40 '
             'seeded operations: the five setter families (set_vectors, set_abc, set_lengths, set_hi_los, '
@@ -153,6 +177,7 @@ class BoxEngine(Engine):
         elif how == 'set_abc':
             a, b, c, al, be, ga = geom.draw_abc(r, st['scale'])
             op['abc'] = [a, b, c, al, be, ga]
+            op['angtype'] = _draw_angtype(r, al, be, ga)
             op['defaults'] = (al, be, ga) == (90.0, 90.0, 90.0) and r.random() < 0.5
             size = max(a, b, c)
             op['origin'] = geom.draw_origin(r, size) if r.random() < 0.6 else None
@@ -180,6 +205,7 @@ class BoxEngine(Engine):
             if fam == 'abc':
                 a, b, c, al, be, ga = geom.draw_abc(r, st['scale'])
                 op['abc'] = [a, b, c, al, be, ga]
+                op['angtype'] = _draw_angtype(r, al, be, ga)
             else:
                 op['V'] = V
             op['origin'] = o
@@ -363,7 +389,8 @@ class BoxEngine(Engine):
             a, b, c, al, be, ga = op['abc']
             kw = {'a': a, 'b': b, 'c': c}
             if not op['defaults']:
-                kw.update(alpha=al, beta=be, gamma=ga)
+                tal, tbe, tga = _typed_angles(ctx, op.get('angtype'), al, be, ga)
+                kw.update(alpha=tal, beta=tbe, gamma=tga)
             if op['origin'] is not None:
                 kw['origin'] = np.array(op['origin'], dtype=float)
             ctx.must('C01.X', box.set if op['via'] == 'set' else box.set_abc, klass=klass, **kw)
@@ -429,7 +456,8 @@ class BoxEngine(Engine):
                 nb = ctx.must('C01.X', am.Box, klass=klass, avect=V[0], bvect=V[1], cvect=V[2], origin=o)
             elif fam == 'abc':
                 a, b, c, al, be, ga = op['abc']
-                nb = ctx.must('C01.X', am.Box, klass=klass, a=a, b=b, c=c, alpha=al, beta=be, gamma=ga, origin=o)
+                tal, tbe, tga = _typed_angles(ctx, op.get('angtype'), al, be, ga)
+                nb = ctx.must('C01.X', am.Box, klass=klass, a=a, b=b, c=c, alpha=tal, beta=tbe, gamma=tga, origin=o)
                 V = geom.tri_from_abc(a, b, c, al, be, ga)
             elif fam == 'lengths':
                 V = np.array(op['V'], dtype=float)
